@@ -10,6 +10,13 @@ let cfg_of name key pool = { c_name = bytes_of_string name; c_key = n_of_string 
 let issuers_of s = if s = "-" || s = "" then [] else List.map unhex (String.split_on_char ',' s)
 let uopt_of = function "H" -> UHash | "D" -> UData | "N" -> UNames | "S" -> UStaging | "I" -> UIssuer | "C" -> UCheckpoint | _ -> URoots
 let world = ref init
+(* legacy cache table probes (Ctlog/Legacy.v): a pure function next to the world *)
+let lcache = ref (lc_load [] None)
+let rows_of s =
+  if s = "-" || s = "" then [] else
+  List.map (fun r -> match String.split_on_char ':' r with
+    | [k; idx; ts] -> (unhex k, (n_of_string idx, z_of_string ts))
+    | _ -> failwith ("row " ^ r)) (String.split_on_char ',' s)
 let do_ev e =
   let (w, obs) = step_show sha_bytes !world e in
   world := w;
@@ -36,6 +43,13 @@ let () =
       | _ :: "cachedrop" :: [i; keep] -> do_ev (EvCacheDrop (nat_of_int (int_of_string i), nat_of_int (int_of_string keep)))
       | _ :: "recompute" :: [i; key; lim] ->
         do_ev (EvRecompute (nat_of_int (int_of_string i), n_of_string key, if lim = "-" then None else Some (n_of_string lim)))
+      | _ :: "lgset" :: [r256; leg] ->
+        lcache := lc_load (rows_of r256) (if leg = "none" then None else Some (rows_of leg))
+      | _ :: "lgdrop" :: _ -> lcache := lc_drop !lcache
+      | _ :: "lgget" :: [k] ->
+        let (r, c) = cache_get2 !lcache (unhex k) in
+        lcache := c;
+        print_string "> "; print_string (string_of_bytes (show_get r)); print_newline ()
       | _ :: "tamper" :: [key; "delete"] -> do_ev (EvTamper (bytes_of_string key, None))
       | _ :: "tamper" :: [key; "bytes"; b] -> do_ev (EvTamper (bytes_of_string key, Some (OB (unhex b))))
       | _ :: "tamper" :: [key; "cp"; origin; size; root; ts; k; ext] ->
